@@ -9,7 +9,7 @@ RECURSIVE Walk(_, _, _)
 Walk(ts, steps, i) ==
   IF i > Len(steps) THEN 0
   ELSE LET t1 == TS_Advance(ts, steps[i][1], steps[i][2], steps[i][3])
-       IN IF ~TS_AverageOK(t1, steps[i][4]) THEN i ELSE Walk(t1, steps, i + 1)
+       IN IF TS_AverageF32(t1) # steps[i][4] \/ ~TS_AverageOK(t1, steps[i][4]) THEN i ELSE Walk(t1, steps, i + 1)
 
 Bad == SelectSeq([i \in 1..Len(Rec) |-> i], LAMBDA i : Walk(TS_New, Rec[i].steps, 1) # 0)
 
